@@ -1,7 +1,7 @@
 From Clip Require Import model.Export gen.Gen_export.
 Require Import ExtrOcamlBasic.
 Extraction Language OCaml.
-Extraction "m.ml" enc_paths enc_paths_buf enc_paths_d dec_paths dec_paths_opt enc_path dec_path
+Extraction "m.ml" enc_paths enc_paths_raw enc_paths_buf enc_paths_d dec_paths dec_paths_opt enc_path dec_path
   enc_tree enc_tree_buf dec_tree dec_tree_opt node_len
   ofc_i64 toc_i64 ofc_f64 toc_f64
   fwd_failures fwd_ok run_prologue codes_ok_at invalid_args null_input table table_z
